@@ -585,6 +585,12 @@ def run_harness(spec, symtabs, workdir, want_witness=False):
                 res.reason = f"out of memory (limit {spec.mem} GB)"
             return res
         failed, inconc = parsed
+        if spec.kv.get("recfail") == "cex":
+            # harnesses about unbounded recursion: a failed recursion-unwinding assertion is a counterexample
+            # candidate (the native replay must overflow the stack / abort to count as reproduced)
+            rec = [e for e in inconc if ".recursion" in e["property"]]
+            inconc = [e for e in inconc if e not in rec]
+            failed = failed + rec
         res.failed = failed
         if inconc:
             res.status = "inconclusive"
@@ -605,6 +611,20 @@ def run_harness(spec, symtabs, workdir, want_witness=False):
                             res.values = extract_values(r["trace"])
             except Exception as e:
                 res.reason += f" (trace unavailable: {e})"
+            if res.values is None:
+                # properties created during symex (unwinding / recursion assertions) cannot be selected with
+                # --property: take the trace of the first failure instead
+                rc3, _ = run(cbmc_cmd(spec, goto, unwindset, extra=["--stop-on-fail", "--trace"]),
+                             timeout=spec.cap, mem_gb=spec.mem, stdout_path=tp)
+                try:
+                    for item in json.load(open(tp)):
+                        for r in item.get("result", []):
+                            if "trace" in r and res.values is None:
+                                res.values = extract_values(r["trace"])
+                        if "trace" in item and res.values is None:
+                            res.values = extract_values(item["trace"])
+                except Exception as e:
+                    res.reason += f" (trace unavailable: {e})"
             return res
         if res.covers_sat < res.covers_total:
             res.status = "inconclusive"
